@@ -56,6 +56,10 @@ func (l *Lexer) nextInsideToken() token.Token {
 
 	l.skipWhitespace()
 
+	// a token belongs to the line on which it starts (curLine may already
+	// have moved on when the token is followed by a newline)
+	startLine := l.curLine
+
 	switch l.ch {
 	case '=':
 		if l.peekChar() == '=' {
@@ -196,7 +200,7 @@ func (l *Lexer) nextInsideToken() token.Token {
 		if isLetter(l.ch) {
 			tok.Literal = l.readIdentifier()
 			tok.Type = token.LookupIdent(tok.Literal)
-			tok.LineNumber = l.curLine
+			tok.LineNumber = startLine
 			return tok
 		} else if isDigit(l.ch) {
 			tok.Literal = l.readNumber()
@@ -209,7 +213,7 @@ func (l *Lexer) nextInsideToken() token.Token {
 			default:
 				tok.Type = "INT"
 			}
-			tok.LineNumber = l.curLine
+			tok.LineNumber = startLine
 			return tok
 		} else {
 			tok = l.newToken(token.ILLEGAL)
@@ -217,7 +221,7 @@ func (l *Lexer) nextInsideToken() token.Token {
 	}
 
 	l.readChar()
-	tok.LineNumber = l.curLine
+	tok.LineNumber = startLine
 	return tok
 }
 
